@@ -98,9 +98,29 @@ def run(tier, regenerate=True):
         return nat.get("opened") is True and len(nat.get("leaves", [])) == case.get("reopened_count", len(nat.get("leaves", [])))
     FC.collect(chk, results, conf)
     rep.close()
+    # ---- database backend: die before each durability point (commit / autocommitted statement) of an operation
+    from . import c06_db
+    dprog = H.load_program(c06_db.CRATES, regenerate=regenerate)
+    chk.extra["mir_regeneration_s"].update(dprog.timings)
+    dscen = c06_db.scenarios_c13(tier)
+    chk.bounds["database_crash_scenarios"] = {"count": len(dscen), "operations": ["apply_records (2)", "rewind", "clear", "replace_all_events (2)"],
+                                              "crash_points": "before each of the first 3 durability points (commits, autocommitted statements) of the call"}
+
+    def db_conf(case, nat_unused):
+        # a process cannot be killed natively at a chosen commit: the counterexample is the path itself
+        return True
+    dres = par.map_entries(lambda sc: c06_db.run_scenario(dprog, sc), dscen)
+    for out in dres:
+        if isinstance(out, dict):
+            for i, (key, desc, case) in enumerate(out["reports"]):
+                case = dict(case, op="none")
+                out["reports"][i] = (key, desc + " [model-level counterexample: a crash at a commit cannot be replayed natively]", case)
+    FC.collect(chk, dres, db_conf)
     chk.extra["crash_points_reached"] = sum(1 for r in results if isinstance(r, dict) and r.get("obligations", 0) > 0)
     chk.assumptions = [
-        "file-system event log only; sqlite transactions, vault-file rewrites and the multi-file operations of LocalAccount are outside",
+        "file-system event log, and DatabaseEventLog over the table model (a transaction is atomic and rolled back when the "
+        "process dies before its commit; a statement outside a transaction is durable on its own); vault-file rewrites and "
+        "the multi-file operations of LocalAccount are outside",
         "each file operation of the vfs model is atomic (a crash happens between operations); torn writes are modelled for appends only",
         "the restart path is new log instance + load_tree (what Folder::new / sign-in do for an event log)",
     ]
@@ -110,6 +130,21 @@ def run(tier, regenerate=True):
 def replay(path):
     from .common import Replayer
     case = json.load(open(path))
+    if case.get("scenario") and case["scenario"].get("crash_at") is not None and "operation" in case:
+        # database crash scenario: model-level, decided again by the solver on the current tree
+        from . import c06_db
+        sc = dict(case["scenario"])
+        sc["op"] = tuple(sc["op"])
+        prog = H.load_program(c06_db.CRATES, regenerate=True)
+        out = c06_db.run_scenario(prog, sc)
+        print(json.dumps({"reports": [r[1][:200] for r in out["reports"]], "gaps": list(out["gaps"])[:3]}))
+        if out["reports"]:
+            print("VIOLATION property=%s replay=%s" % (PROP, path))
+            return 1
+        return 0
+    if "operation" in case or case.get("op") == "none":
+        print("model-level counterexample without a scenario to re-run: nothing to replay natively")
+        return 0
     rep = Replayer("dev")
     nat = rep.run({"op": "fslog_open", "bytes": case.get("disk", ""), "missing": bool(case.get("disk_missing"))})
     rep.close()
